@@ -37,8 +37,8 @@ EXPLANATION = (
     "global numpy source and set_random_seed seeds both global sources; all other random draws of these modules use "
     "the seeded stdlib global; R19.6 the kill-chain return handler reads history[<its timestep parameter>] (never a fixed "
     "position), every caller passes self.current_timestep, which is written only by update_current_timestep and only "
-    "R19.7 the numeric settings this property depends on are never tested by truthiness (`x or default`, `if x:`), because 0 is a legal value for them. "
-    "after the handler has examined the previous turn. NOT decided: statistical behaviour of the draws, effects of blue actions on success or "
+    "after the handler has examined the previous turn. R19.7 the numeric settings this property depends on are never tested by truthiness (`x or default`, `if x:`) - 0 is a legal value for them. "
+    "NOT decided: statistical behaviour of the draws, effects of blue actions on success or "
     "failure of red actions, whether emitted action names are in the configured action map, validity of the "
     "credentials/knowledge TAP003 reads from its options."
 )
